@@ -45,6 +45,7 @@ verus! {
             pre is Some && mat is Some ==> aut.post_match(sid),
             earliest ==> mat is None,
             steps <= at - input.span.start, // [C19] one transition per byte
+            !aut.dead_s(sid), // [C19] the loop is left at the first dead state: no call scans on after the answer is final
             find_spec(aut, anchored, earliest, input.haystack@, input.span.start as int, input.span.end as int)
                 == scan(aut, anchored, earliest, input.haystack@, fstart(anchored, input.span.start as int),
                         input.span.end as int, at as int, sid, mat),
